@@ -606,6 +606,12 @@ def _compute_sfs(
                 [x[0] for x in integration_intervals].index(interval[1])
             ]
             next_deme_order = demes_present[next_interval]
+            # demes that end here but were not removed by an event (e.g. parents of an
+            # admixture that end at the admixture time while another parent lives on)
+            for pop in [_ for _ in pop_ids if _ not in next_deme_order]:
+                remove_i = pop_ids.index(pop)
+                pop_ids = pop_ids[:remove_i] + pop_ids[remove_i+1:]
+                phi = dadi.PhiManip.remove_pop(phi, xx, remove_i+1)
             # ###
             # print('current pop ids:',pop_ids)
             # ###
